@@ -247,3 +247,88 @@ def detour(obj):
     except Exception:  # noqa: BLE001 - a detour that cannot be applied is simply skipped
         pass
     return obj
+
+
+def morph(obj):
+    """Edit a network in place into a *different* network with the same number of nodes and edges (a node is added to
+    an existing edge it was not in, or - if every edge is full - removed from one; for complexes a maximal two-node
+    simplex is re-pointed to a non-adjacent pair under the same ID).  Used after `detour`: anything a function
+    remembered about this object under a key such as (number of nodes, number of edges) is now wrong, while the
+    oracles are recomputed from the current members().  Returns True if the structure changed."""
+    cls = type(obj).__name__
+    try:
+        nodes = list(obj.nodes)
+        if cls == "SimplicialComplex":
+            mem = obj.edges.members(dtype=dict)
+            sets = {frozenset(m) for m in mem.values()}
+            for e, m in mem.items():
+                if len(m) == 2 and not any(frozenset(m) < o for o in sets):
+                    a = sorted(m, key=repr)[0]
+                    for c in nodes:
+                        if c != a and frozenset((a, c)) not in sets:
+                            attrs = dict(obj.edges[e])
+                            obj.remove_simplex_id(e)
+                            obj.add_simplex([a, c], idx=e, **attrs)
+                            return True
+            return False
+        edges = list(obj.edges)
+        for e in edges:
+            if cls == "DiHypergraph":
+                t, h = obj.edges.dimembers(e)
+                for n in nodes:
+                    if n not in t:
+                        obj.add_node_to_edge(e, n, "in")
+                        return True
+            else:
+                m = obj.edges.members(e)
+                for n in nodes:
+                    if n not in m:
+                        obj.add_node_to_edge(e, n)
+                        return True
+        for e in edges:
+            if cls == "Hypergraph":
+                m = sorted(obj.edges.members(e), key=repr)
+                if len(m) >= 2:
+                    obj.remove_node_from_edge(e, m[-1], remove_empty=False)
+                    return True
+    except Exception:  # noqa: BLE001
+        pass
+    return False
+
+
+def grow(obj):
+    """Add one new edge / simplex (fresh automatic ID) joining existing nodes in a way not present yet, or a new node
+    attached to an existing one.  Third stage after `detour` and `morph`: the ID sets themselves change."""
+    import itertools
+
+    cls = type(obj).__name__
+    try:
+        nodes = list(obj.nodes)
+        if cls == "DiHypergraph":
+            if len(nodes) >= 2:
+                obj.add_edge(([nodes[-1]], [nodes[0]]))
+            else:
+                obj.add_edge((["g1"], ["g2"]))
+            return True
+        present = {frozenset(m) for m in obj.edges.members()}
+        for k in (2, 3):
+            for c in itertools.combinations(nodes, k):
+                if frozenset(c) not in present:
+                    (obj.add_simplex if cls == "SimplicialComplex" else obj.add_edge)(list(c))
+                    return True
+        new = (max(nodes) + 1) if nodes and all(isinstance(n, int) for n in nodes) else "g%d" % len(nodes)
+        (obj.add_simplex if cls == "SimplicialComplex" else obj.add_edge)([nodes[0], new] if nodes else [new, new + "x"])
+        return True
+    except Exception:  # noqa: BLE001
+        return False
+
+
+def exotic_label_maps(nodes):
+    """Node relabellings to label *types* other than int / str: integer-valued floats (equal to ints as dict keys),
+    proper floats, tuples, and a mix of int, float, str and tuple."""
+    ns = list(nodes)
+    out = [("integral floats", {n: float(i) for i, n in enumerate(ns)}),
+           ("floats", {n: i + 0.5 for i, n in enumerate(ns)}),
+           ("tuples", {n: (i, "t") for i, n in enumerate(ns)}),
+           ("mixed types", {n: [i, float(i) + 0.25, "s%d" % i, (i,)][i % 4] for i, n in enumerate(ns)})]
+    return out
